@@ -1,6 +1,7 @@
 (** C03 - CDDA tracks tile the bin file exactly at the cue sheet's index positions.
     Property theorems only. *)
-From SE Require Import Base Codecs Cue FatProofs Stream StreamProofs CueProofs Transcode TranscodeProofs TranscodeUnbounded AkaiProofs.
+From SE Require Import Base Codecs Cue FatProofs Stream StreamProofs CueProofs CueDecorProofs Transcode TranscodeProofs TranscodeUnbounded
+     Names AkaiImage AkaiProofs CddaImage CddaSpec CddaCompose.
 
 Theorem msf_frames : forall m s f,
   frames_of_index {| ix_num := 1; ix_min := m; ix_sec := s; ix_frm := f |} = (60 * m + s) * 75 + f.
@@ -71,3 +72,147 @@ Proof.
   destruct (Z.gtb_spec (w_size w) 0) as [_|Hc]; [|lia]. do 3 f_equal.
 Qed.
 Print Assumptions cdda_track_written_pcm.
+
+(** * The WHOLE export, composed (CddaImage.v: [cdda_export]; CddaSpec.v: logical disc, serialiser,
+    expected files; CddaCompose.v: proofs).
+
+    THE COMPOSED THEOREM.  For EVERY logical disc [D] - any number of tracks (none included), each
+    with an optional TITLE of any printable text, the mode word AUDIO in any letter case, a first INDEX at any MM:SS:FF (any non-negative
+    fields, so also positions written with FF >= 75 or SS >= 60) and any further INDEX lines, the
+    track starts strictly increasing - and EVERY bin that reaches the last track's start (any
+    length, not necessarily a multiple of 2352 or of 4): `export` of the canonical cue sheet of [D]
+    over that bin is routed to the CDDA reader and writes exactly [expected D bin]: per track, in
+    order, ONE file named by the exporter's own sibling-name routine applied to the track names
+    (TITLE, or "Untitled Track k"), 2 channels, 44100 Hz, whose PCM is the bin from the track's
+    start (MM*60+SS)*75+FF sectors of 2352 bytes to the next track's start; the last track to the
+    end of the bin in whole 4-byte frames.  The names appear on both sides through the same closed
+    expression [make_safe_names ;; make_export_names] (as the partition names do in
+    [akai_export_correct]): no hypothesis on the titles is needed; should the routine raise
+    CouldNotDetermineName, both sides are that error. *)
+Theorem cdda_export_correct :
+  forall D bin, disc_ok D -> bin_covers D bin ->
+    cdda_export (cue_serialise D) bin = expected D bin.
+Proof. intros D bin H1 H2. exact (proj2 (cdda_export_correct_lemma D bin H1 H2)). Qed.
+Print Assumptions cdda_export_correct.
+
+(** ... and so does EVERY DECORATION of that sheet (the relation [decorated] of C17: any letter
+    case of FILE/BINARY/TRACK/TITLE/INDEX, blanks before and after lines, blank lines anywhere,
+    non-FILE lines before the FILE line, REM/PERFORMER/FLAGS/... lines inside tracks): the
+    sheets the correspondence run generates are of this form. *)
+Theorem cdda_export_correct_decorated :
+  forall D bin ls', disc_ok D -> bin_covers D bin -> decorated (cue_serialise D) ls' ->
+    cdda_export ls' bin = expected D bin.
+Proof. exact cdda_export_decorated_lemma. Qed.
+Print Assumptions cdda_export_correct_decorated.
+
+(** the routing: the sheet of an audio disc goes to the CDDA reader, never to the sampler readers *)
+Theorem cdda_export_routed :
+  forall D bin, disc_ok D -> bin_covers D bin ->
+    cue_export (cue_serialise D) bin = (files <- expected D bin ;; Ok (ToCdda files)).
+Proof. intros D bin H1 H2. exact (proj1 (cdda_export_correct_lemma D bin H1 H2)). Qed.
+Print Assumptions cdda_export_routed.
+
+(** The export SUCCEEDS for every valid disc, whatever its titles: the sibling-name routine
+    never raises CouldNotDetermineName nor runs out of fuel (NamesTotalProofs.v,
+    [sanitize_names_ok_lemma]: every collision of its counting loop consumes a different
+    taken name), so [expected D bin] is always [Ok] of one file per track under pairwise
+    distinct names. *)
+Theorem cdda_export_succeeds :
+  forall D bin, disc_ok D -> bin_covers D bin ->
+    exists names,
+      make_export_names (disc_elems D) = Ok names /\ NoDup names /\ length names = length (ld_tracks D)
+      /\ cdda_export (cue_serialise D) bin = Ok (expected_files names D bin).
+Proof. exact cdda_export_total_lemma. Qed.
+Print Assumptions cdda_export_succeeds.
+
+(** the same, spelled with the names the routine returns ... *)
+Theorem cdda_export_correct_named :
+  forall D bin sn names, disc_ok D -> bin_covers D bin ->
+    make_safe_names (disc_elems D) = Ok sn -> make_export_names (disc_elems D) = Ok names ->
+    cdda_export (cue_serialise D) bin = Ok (expected_files names D bin).
+Proof. exact cdda_export_named_lemma. Qed.
+Print Assumptions cdda_export_correct_named.
+
+(** ... and for track names that stay pairwise distinct under the two sanitisers (the
+    [image_plain] form of [akai_export_correct]): every file is "<sanitised name>.wav" *)
+Theorem cdda_export_correct_plain :
+  forall D bin, disc_ok D -> bin_covers D bin -> disc_plain D ->
+    cdda_export (cue_serialise D) bin
+    = Ok (expected_files (map (fun n => make_export_name n true) (disc_names 1 (ld_tracks D))) D bin).
+Proof. exact cdda_export_plain_lemma. Qed.
+Print Assumptions cdda_export_correct_plain.
+
+(** Corollary (no gap, no overlap): whatever files a successful export wrote, their PCM
+    concatenated in track order is the bin from the first track's start to its end minus the
+    r < 4 trailing bytes that do not fill a frame. *)
+Theorem cdda_export_tiles :
+  forall D bin files, disc_ok D -> bin_covers D bin -> ld_tracks D <> [] ->
+    cdda_export (cue_serialise D) bin = Ok files ->
+    let a := 2352 * hd 0 (disc_starts D) in
+    let r := (zlen bin - 2352 * last (disc_starts D) 0) mod 4 in
+    concat (map w_pcm files) = slice bin a (zlen bin - r)
+    /\ exists tail, tail = slice bin (zlen bin - r) (zlen bin) /\ zlen tail = r /\ 0 <= r < 4
+                    /\ concat (map w_pcm files) ++ tail = skipn (Z.to_nat a) bin.
+Proof. exact cdda_export_tiles_lemma. Qed.
+Print Assumptions cdda_export_tiles.
+
+(** Corollary: one file per track, at pairwise distinct paths (from the naming theorem
+    [sibling_export_names_distinct] of C06, whatever the titles: equal, differing only in
+    characters the sanitiser drops, "x L" / "x R" ...), each 2 channels at 44100 Hz, directly
+    below the destination. *)
+Theorem cdda_export_one_file_per_track :
+  forall D bin files, disc_ok D -> bin_covers D bin ->
+    cdda_export (cue_serialise D) bin = Ok files ->
+    length files = length (ld_tracks D) /\ NoDup (map w_path files)
+    /\ Forall (fun f => w_rate f = 44100 /\ w_channels f = 2 /\ exists n, w_path f = [n]) files.
+Proof. exact cdda_export_one_file_per_track_lemma. Qed.
+Print Assumptions cdda_export_one_file_per_track.
+
+(** For EVERY text and EVERY bin (cue sheet or not, any track modes, any index order, tracks
+    without INDEX, windows beyond the end of the bin ...): the whole-image model is its PLAN -
+    the files with the byte range of the bin each one's PCM is - cut out of the bin.  The
+    correspondence run evaluates the plan on every generated case (the bin is represented by its
+    length only) and the full model on the cases with a small bin. *)
+Theorem cdda_export_plan_exact :
+  forall lines bin,
+    cue_export lines bin = (p <- cue_export_plan lines (zlen bin) ;; Ok (materialise_routed bin p)).
+Proof. exact cue_export_plan_exact_lemma. Qed.
+Print Assumptions cdda_export_plan_exact.
+
+(** positions written the usual way (FF < 75, SS < 60): the frame count is read back, with
+    the carries from frames into seconds and from seconds into minutes *)
+Theorem msf_of_frames_roundtrip :
+  forall n f t mo more, 0 <= n -> 0 <= f ->
+    wf_index (msf_of_frames n f)
+    /\ lt_start {| lt_title := t; lt_mode := mo; lt_index := msf_of_frames n f; lt_more := more |} = f.
+Proof. intros n f t mo more Hn Hf. split; [now apply msf_of_frames_wf|now apply msf_of_frames_start]. Qed.
+
+(** Non-vacuity: the disc of CddaSpec.v - "Song" at 00:00:74, an untitled track with a pre-gap
+    index at 00:01:00 (a carry from frames into seconds), "Song" again at 00:01:02 - over a bin
+    of 181111 bytes (= 3 mod 4) satisfies the hypotheses; the theorem gives its export, and
+    running the model on the serialised text gives the same three files: "Song", "Untitled
+    Track 2", "Song (2)" with 2352, 4704 and 4 bytes of PCM. *)
+Example c03_export_example :
+  disc_ok ex_disc /\ bin_covers ex_disc ex_bin /\ zlen ex_bin mod 4 = 3 /\ disc_starts ex_disc = [74; 75; 77]
+  /\ cue_serialise ex_disc =
+     [ [70;73;76;69;32;34;100;46;98;105;110;34;32;66;73;78;65;82;89];   (* FILE "d.bin" BINARY *)
+       [84;82;65;67;75;32;48;49;32;65;85;68;73;79];                      (* TRACK 01 AUDIO *)
+       [84;73;84;76;69;32;34;83;111;110;103;34];                         (* TITLE "Song" *)
+       [73;78;68;69;88;32;48;49;32;48;48;58;48;48;58;55;52];             (* INDEX 01 00:00:74 *)
+       [84;82;65;67;75;32;48;50;32;65;85;68;73;79];                      (* TRACK 02 AUDIO *)
+       [73;78;68;69;88;32;48;48;32;48;48;58;48;49;58;48;48];             (* INDEX 00 00:01:00 *)
+       [73;78;68;69;88;32;48;49;32;48;48;58;48;49;58;48;49];             (* INDEX 01 00:01:01 *)
+       [84;82;65;67;75;32;48;51;32;65;85;68;73;79];                      (* TRACK 03 AUDIO *)
+       [84;73;84;76;69;32;34;83;111;110;103;34];                         (* TITLE "Song" *)
+       [73;78;68;69;88;32;48;49;32;48;48;58;48;49;58;48;50] ]            (* INDEX 01 00:01:02 *)
+  /\ cdda_export (cue_serialise ex_disc) ex_bin = expected ex_disc ex_bin
+  /\ match cdda_export (cue_serialise ex_disc) ex_bin with
+     | Ok files =>
+         map (fun w => (w_path w, w_rate w, w_channels w, zlen (w_pcm w), firstn 4 (w_pcm w))) files
+         = [ ([[83;111;110;103]], 44100, 2, 2352, [105;106;107;108]);
+             ([[85;110;116;105;116;108;101;100;32;84;114;97;99;107;32;50]], 44100, 2, 4704, [198;199;200;201]);
+             ([[83;111;110;103;32;40;50;41]], 44100, 2, 4, [133;134;135;136]) ]
+     | _ => False
+     end.
+Proof. exact ex_export_lemma. Qed.
+
